@@ -9,6 +9,7 @@ CONSTANTS
   Wallet <- W12
   AllowRestart = FALSE
   AllowRelayOff = FALSE
+  RemovalRace = TRUE
   DesigRace = FALSE
   KeepFirstCopy = TRUE
   WithdrawOnRemoval = FALSE
